@@ -70,6 +70,7 @@ class Scenario:
     # further oracle-only features (not in the Lean model):
     midpull_close: tuple = ()  # (call_no, j): the consumer closes the generator while a callback delivered at a consumer
     #                            pause is inside its j-th pull from the input iterable
+    verbose: int = 0           # Parallel(verbose=...): progress printing must not change behaviour (output is discarded)
     probe_wait: bool = False   # evaluate Parallel._wait_retrieval() at every bytecode of completion callbacks delivered
     #                            while the caller sleeps in the retrieval loop (what the caller would see if it ran there)
 
@@ -96,7 +97,7 @@ class Scenario:
                     abort_drops=self.abort_drops,
                     calls=[dict(n=c.n, fail=list(c.fail), iterfail=c.iterfail, cons=list(c.cons)) for c in self.calls],
                     sched=[list(e) for e in self.sched], instr=[list(e) for e in self.instr],
-                    midpull_close=list(self.midpull_close), probe_wait=self.probe_wait)
+                    midpull_close=list(self.midpull_close), probe_wait=self.probe_wait, verbose=self.verbose)
 
     @staticmethod
     def from_json(d):
@@ -105,7 +106,7 @@ class Scenario:
                         abort_drops=d["abort_drops"],
                         calls=tuple(Call(c["n"], tuple(c["fail"]), c["iterfail"], tuple(c["cons"])) for c in d["calls"]),
                         sched=tuple(tuple(e) for e in d["sched"]), instr=tuple(tuple(e) for e in d.get("instr", ())),
-                        midpull_close=tuple(d.get("midpull_close", ())), probe_wait=bool(d.get("probe_wait", False)))
+                        midpull_close=tuple(d.get("midpull_close", ())), probe_wait=bool(d.get("probe_wait", False)), verbose=int(d.get("verbose", 0)))
 
 
 # ---------------------------------------------------------------- the run
@@ -305,6 +306,11 @@ class Run:
         ft = _FakeTime(self)
         saved_time = jp.time
         jp.time = ft
+        import io as _io
+        import sys as _sys
+        saved_out = (_sys.stdout, _sys.stderr)
+        if sc.verbose:
+            _sys.stdout, _sys.stderr = _io.StringIO(), _io.StringIO()
         mon_on = self._monitor_start(jp) if (sc.instr or self.count_instr or sc.probe_wait) else None
         self.outcomes = []
         try:
@@ -317,7 +323,7 @@ class Run:
                 pd = "all" if sc.pd_mode == 1 else (sc.pd_expr if sc.pd_mode == 2 else sc.pd)
                 par = joblib.Parallel(
                     n_jobs=sc.nj, backend=be, batch_size=("auto" if sc.bs_auto else sc.bs[0]), pre_dispatch=pd,
-                    return_as=["list", "generator", "generator_unordered"][sc.ra], **kw)
+                    return_as=["list", "generator", "generator_unordered"][sc.ra], verbose=sc.verbose, **kw)
                 self.par = par
                 if sc.managed:
                     par.__enter__()
@@ -344,6 +350,7 @@ class Run:
                     self.ev("exit")
         finally:
             jp.time = saved_time
+            _sys.stdout, _sys.stderr = saved_out
             if mon_on:
                 self._monitor_stop(mon_on)
         return self
